@@ -8,6 +8,14 @@ Q = ['w', 'x', 'y', 'z']
 P = ['a', 'b', 'c', 'd']
 VV = ['v0', 'v1', 'v2']
 
+def rows4(n):
+    return [[f'{c}{i}' for c in 'wxyz'] for i in range(n)]
+
+
+def Q4x(n):
+    return [x for r in rows4(n) for x in r]
+
+
 RULE = ("unit quaternions from the named thin regions (identity, axis-aligned/oblique half-turns, near-identity "
         "1e-9..1e-3, near-half-turn 1e-12, pure, denormal components, antipodes) followed by uniform draws on S^3; "
         "a case is non-trivial when its quaternion is not the identity; distinct = distinct (route, region, rounded input)")
@@ -37,6 +45,14 @@ def targets():
         mk('q2R_v2', Q, lambda A, v: O(A).q2R(v.vec(*Q), version=2)),
         mk('q2R_v1_batch', Q, lambda A, v: O(A).q2R(v.mat([Q]), version=1)[0]),
         mk('q2R_v2_batch', Q, lambda A, v: O(A).q2R(v.mat([Q]), version=2)[0]),
+        # batch routes with N = 4 and N = 3 rows (square / vector-like shapes are where shape logic goes wrong)
+        mk('QA_to_DCM_N4', Q4x(4), lambda A, v: A.QuaternionArray(v.mat(rows4(4))).to_DCM(), 'QuaternionArray(4 rows).to_DCM()'),
+        mk('DCM_fromq_batch_N4', Q4x(4), lambda A, v: A.DCM().from_quaternion(v.mat(rows4(4)))),
+        mk('q2R_v1_batch_N4', Q4x(4), lambda A, v: O(A).q2R(v.mat(rows4(4)), version=1)),
+        mk('q2R_v2_batch_N4', Q4x(4), lambda A, v: O(A).q2R(v.mat(rows4(4)), version=2)),
+        mk('QA_to_DCM_N3', Q4x(3), lambda A, v: A.QuaternionArray(v.mat(rows4(3))).to_DCM(), 'QuaternionArray(3 rows).to_DCM()'),
+        mk('DCM_fromq_batch_N3', Q4x(3), lambda A, v: A.DCM().from_quaternion(v.mat(rows4(3)))),
+        mk('q2R_v1_batch_N3', Q4x(3), lambda A, v: O(A).q2R(v.mat(rows4(3)), version=1)),
         mk('product', P + Q, lambda A, v: A.Quaternion(v.vec(*P)).product(v.vec(*Q)), 'Quaternion(p).product(q), q raw'),
         mk('mul', P + Q, lambda A, v: A.Quaternion(v.vec(*P), versor=False) * A.Quaternion(v.vec(*Q), versor=False),
            'Quaternion(p,versor=False) * Quaternion(q,versor=False) (result is re-normalised by the constructor)'),
@@ -91,6 +107,18 @@ def correspondence(ctx):
         # also non-normalised inputs: the routes normalise
         cases += [cm.d(Q, q * s) for (_, q), s in zip(qs[:10], [2.0, 0.5, 1e-3, 1e3, 7.0, 1e-8, 3.0, 1e8, 0.1, 10.0])]
         ctx.correspond(f"C01_{name}", cases, (lambda c, f=f: f([c[k] for k in Q])), tol_ulp=64)
+    import ahrs as _ahrs
+    from ahrs.common import orientation as _O
+    batch = {'QA_to_DCM': lambda M: _ahrs.QuaternionArray(M).to_DCM(), 'DCM_fromq_batch': lambda M: _ahrs.DCM().from_quaternion(M),
+             'q2R_v1_batch': lambda M: _O.q2R(M, version=1), 'q2R_v2_batch': lambda M: _O.q2R(M, version=2)}
+    for nrows, names in ((4, ('QA_to_DCM', 'DCM_fromq_batch', 'q2R_v1_batch', 'q2R_v2_batch')), (3, ('QA_to_DCM', 'DCM_fromq_batch', 'q2R_v1_batch'))):
+        bc = []
+        for i in range(ctx.n(12, 100)):
+            rows = [qs[(i * 5 + k * 3) % len(qs)][1] for k in range(nrows)]
+            bc.append(cm.d(Q4x(nrows), np.concatenate(rows)))
+        for name in names:
+            f = batch[name]
+            ctx.correspond(f"C01_{name}_N{nrows}", bc, (lambda c, f=f, nrows=nrows: f(np.array([[c[k] for k in r] for r in rows4(nrows)]))), tol_ulp=64)
     Pr = _products()
     cases = []
     for i in range(n):
@@ -179,7 +207,63 @@ def o_rotate(inp):
     return None
 
 
-ORACLES = {'route': o_route, 'hom': o_hom, 'rotate': o_rotate}
+def _batch_routes():
+    import ahrs
+    from ahrs.common import orientation as O
+    return {
+        'QA_to_DCM': lambda M: ahrs.QuaternionArray(M).to_DCM(),
+        'DCM_fromq_batch': lambda M: ahrs.DCM().from_quaternion(M),
+        'DCM_q_batch': lambda M: np.asarray(ahrs.DCM(q=M)) if M.shape[0] > 0 else None,
+        'q2R_v1_batch': lambda M: O.q2R(M, version=1),
+        'q2R_v2_batch': lambda M: O.q2R(M, version=2),
+    }
+
+
+def o_batch(inp):
+    """N-row batch routes: row i of the result is the textbook matrix of row i, for every N (incl. N = 3, 4)"""
+    route, M = inp['route'], np.array(inp['rows'], dtype=float)
+    if route == 'DCM_q_batch':
+        return None          # DCM(q=NxN4) is not an offered route (DCM is a single 3x3); kept out
+    R = np.asarray(_batch_routes()[route](M.copy()), float)
+    n = M.shape[0]
+    if R.shape != (n, 3, 3) or cm.bad(R):
+        return {'tag': f'{route}/N={n}/shape-or-nonfinite', 'observed': list(R.shape)}
+    for i in range(n):
+        if cm.maxabs(R[i], cm.Rspec(M[i])) > TOL:
+            return {'tag': f'{route}/batch-row-differs-from-spec', 'observed': R[i], 'expected': cm.Rspec(M[i]), 'note': f'N={n} row {i}'}
+    return None
+
+
+def o_dtype(inp):
+    """unit quaternions given as integer arrays, Python lists or float32 arrays are the same quaternions"""
+    kind, q, p = inp['kind'], inp['q'], inp['p']
+    conv = {'int': lambda x: np.array(x, dtype=int), 'list': lambda x: [float(v) for v in x], 'intlist': lambda x: [int(v) for v in x],
+            'float32': lambda x: np.array(x, dtype=np.float32)}[kind]
+    qf, pf = np.array(q, float), np.array(p, float)
+    for name, f in _routes().items():
+        try:
+            M = np.asarray(f(conv(q) if not isinstance(conv(q), list) or name not in ('q2R_v1', 'q2R_v2', 'q2R_v1_batch', 'q2R_v2_batch') else np.array(conv(q), dtype=float)), float)
+        except (TypeError, ValueError, AttributeError):
+            continue            # a route may refuse a container type; it must not return a wrong matrix
+        if M.shape == (3, 3) and cm.maxabs(M, cm.Rspec(qf)) > (1e-6 if kind == 'float32' else TOL):
+            return {'tag': f'{name}/dtype-{kind}', 'observed': M, 'expected': cm.Rspec(qf)}
+    for name, g in _products().items():
+        for a, b, tag in ((conv(q), pf, 'left'), (qf, conv(p), 'right')):
+            try:
+                if isinstance(a, list) and name == 'q_prod':
+                    a = np.array(a)
+                if isinstance(b, list) and name == 'q_prod':
+                    b = np.array(b)
+                r = np.asarray(g(a, b), float)
+            except (TypeError, ValueError, AttributeError):
+                continue
+            ref = cm.qmul(np.array(a, float), np.array(b, float))
+            if r.shape != (4,) or cm.maxabs(r, ref) > (1e-6 if kind == 'float32' else TOL):
+                return {'tag': f'{name}/dtype-{kind}-{tag}', 'observed': r, 'expected': ref}
+    return None
+
+
+ORACLES = {'route': o_route, 'hom': o_hom, 'rotate': o_rotate, 'batch': o_batch, 'dtype': o_dtype}
 
 
 def search(ctx, scale):
@@ -198,6 +282,21 @@ def search(ctx, scale):
         v = ctx.rng.standard_normal(3) * 10 ** ctx.rng.uniform(-3, 3)
         inp = {'q': q.tolist(), 'v': v.tolist()}
         ctx.check('rotate', inp, cm_call(o_rotate, inp), nontrivial_key=(tuple(np.round(q, 6)), tuple(np.round(v, 6))))
+    # batches of every small N
+    for N in (1, 2, 3, 4, 5, 7):
+        for rep in range(2 * scale):
+            rows = [qs[(rep * 13 + 3 * k + N) % len(qs)][1].tolist() for k in range(N)]
+            for route in _batch_routes():
+                inp = {'route': route, 'rows': rows}
+                ctx.check('batch', inp, cm_call(o_batch, inp), nontrivial_key=(route, N, rep))
+    # integer / list / float32 operands: axis-aligned and half-integer units are exactly representable
+    exact = [[1, 0, 0, 0], [0, 1, 0, 0], [0, 0, -1, 0], [0, 0, 0, 1], [-1, 0, 0, 0]]
+    others = [[0.5, 0.5, 0.5, 0.5], [0.5, -0.5, 0.5, -0.5], qs[-1][1].tolist(), qs[-2][1].tolist()]
+    for kind in ('int', 'intlist', 'list', 'float32'):
+        for i, q in enumerate(exact):
+            for p in others[: (2 if scale == 1 else 4)]:
+                inp = {'kind': kind, 'q': q, 'p': p}
+                ctx.check('dtype', inp, cm_call(o_dtype, inp), nontrivial_key=(kind, i, tuple(np.round(p, 6))))
     if len(ctx.samples) < 8:
         ctx.samples.append({'kind': 'search', 'oracle': 'route', 'input': {'route': routes[0], 'q': qs[5][1].tolist(), 'region': qs[5][0]}})
 
